@@ -499,6 +499,7 @@ func init() {
 			c.guard("RW.ALLFILES", func() { r.ruleAllFiles(false) })
 			c.guard("DET.GENSYM", r.ruleGensym)
 			c.guard("OPT.MEMO", r.ruleMemo)
+			c.guard("DET.PARTIALTYPES", r.rulePartialTypes)
 			c.guard("DET.TMP", r.ruleTmpDir)
 			c.guard("RW.TMPL.RANGE", r.ruleTmplRange)
 			// "regardless of outputs of earlier runs present on disk": the outputs carry the negation of the very tag
